@@ -1,136 +1,6 @@
-import SwcVerif.Gen.AlgoDsu
-import SwcVerif.Gen.AlgoTraverse
-import SwcVerif.Gen.AlgoSort
-import SwcVerif.Gen.AlgoCheckers
-import SwcVerif.Gen.AlgoPopulation
-import SwcVerif.Gen.AlgoSubtree
-import SwcVerif.Model.Population
-import SwcVerif.Model.Dsu
-import SwcVerif.Model.Traverse
-/-! Driver side of the imperative translator: the definitions GENERATED from the current sources are run on the
-same protocol lines as the hand-written models, so that the translator (and the semantics library `Model/Py.lean`)
-is cross-checked against the real functions by the correspondence suites. -/
-namespace AlgoRun
-open Gen.Algo Dsu
-
-/-- run a script on the generated object with the generated methods (`none` = an exception) -/
-def genRun (F : Nat) : DisjointSetUnion → List Op → List (Option Bool)
-  | _, [] => []
-  | g, .union a b :: ops =>
-    match dsu_union_sets F g (a : Int) (b : Int) with
-    | none => [none]
-    | some r => genRun F r.1 ops
-  | g, .same a b :: ops =>
-    match dsu_is_same_set F g (a : Int) (b : Int) with
-    | none => [none]
-    | some r => some r.2 :: genRun F r.1 ops
-
-/-- `gdsu n=<k> ops=u:a:b;s:a:b;…` → answers of the queries, computed by the generated code -/
-def handleDsu (args : List String) : String :=
-  match Proto.argNat args "n", (Proto.arg args "ops").bind parseOps with
-  | some n, some ops =>
-    match dsu_init default (n : Int) with
-    | none => "E"
-    | some (g, _) => "".intercalate ((genRun (ops.length + 1) g ops).map showOB)
-  | _, _ => "bad-args"
-
-/-- `gtrav ids=.. pids=.. root=r` → call log and return value of the GENERATED `_traverse_dfs` (logging callbacks of
-`Model/Traverse.lean`); `E` = an exception -/
-def handleTrav (args : List String) : String :=
-  match Proto.argInts args "ids", Proto.argInts args "pids", Proto.argInt args "root" with
-  | some ids, some pids, some root =>
-    match traverse_dfs Trav.logEnter Trav.logLeave (2 * ids.length + 3) (ids, pids) root ([] : List Trav.Ev) with
-    | none => "E"
-    | some (log, ret) => s!"{" ".intercalate (log.reverse.map Trav.Ev.show)} ret={ret} stack=0"
-  | _, _, _ => "bad-args"
-
-/-- `gsort ids=.. pids=..` → `new_pids / indices` of the GENERATED `sort_nodes_impl` (`error` = any exception) -/
-def handleSort (args : List String) : String :=
-  match Proto.argInts args "ids", Proto.argInts args "pids" with
-  | some ids, some pids =>
-    match sort_nodes_impl (ids.length + 2) (ids, pids) with
-    | none => "error"
-    | some r => s!"{Proto.showInts r.1.2} / {Proto.showInts r.2}"
-  | _, _ => "bad-args"
-
-/-- `ggetdsu ids=.. pids=..` → labels computed by the GENERATED `get_dsu` (`E` = KeyError / fuel) -/
-def handleGetDsu (args : List String) : String :=
-  match Proto.argInts args "ids", Proto.argInts args "pids" with
-  | some ids, some pids =>
-    match get_dsu (ids.length * ids.length + 2) ids pids with
-    | none => "E"
-    | some l => Proto.showInts l
-  | _, _ => "bad-args"
-
-/-- one operation of the `lazy` protocol on the GENERATED `LazyLoadingTrees` methods -/
-def gLazyStep (st : LazyLoadingTrees × List Int) : Pop.LOp → (LazyLoadingTrees × List Int) × String
-  | .get key => match lazy_getitem Pop.readLog st.1 key st.2 with
-    | none => (st, "E")
-    | some (g, log, t) => ((g, log), match t with | some k => s!"[{k}]" | none => "[none]")
-  | .load k => match lazy_len st.1 with
-    | some n => if (k : Int) < n then
-        (match lazy_load Pop.readLog st.1 (k : Int) st.2 with
-         | none => (st, "E")
-         | some (g, log, _) => ((g, log), "[]"))
-      else (st, "E")
-    | none => (st, "E")
-  | .iter => match lazy_len st.1 with
-    | some n =>
-      let r := (Py.range n).foldl (fun (acc : (LazyLoadingTrees × List Int) × List String) i =>
-        match lazy_getitem Pop.readLog acc.1.1 i acc.1.2 with
-        | none => (acc.1, acc.2 ++ ["E"])
-        | some (g, log, t) => ((g, log), acc.2 ++ [match t with | some k => toString k | none => "none"])) (st, [])
-      (r.1, "[" ++ ",".intercalate r.2 ++ "]")
-    | none => (st, "E")
-  | .len => match lazy_len st.1 with
-    | some n => (st, s!"[{n}]")
-    | none => (st, "E")
-
-/-- `glazy n=<k> pop=0|1 ops=…` : the `lazy` protocol answered by the generated code -/
-def handleLazy (args : List String) : String :=
-  match Proto.argNat args "n", (Proto.arg args "ops").bind Pop.parseLOps with
-  | some n, some ops =>
-    let g0 : LazyLoadingTrees := ⟨(List.range n).map (fun (k : Nat) => (k : Int)), List.replicate n none⟩
-    let s0 : LazyLoadingTrees × List Int :=
-      if Proto.argNat args "pop" = some 1 && n > 0 then (gLazyStep (g0, []) (.get 0)).1 else (g0, [])
-    let r := ops.foldl (fun (acc : (LazyLoadingTrees × List Int) × List String) op =>
-      let st := gLazyStep acc.1 op
-      (st.1, acc.2 ++ [st.2])) (s0, [])
-    " ".intercalate r.2 ++ " / " ++ Proto.showInts r.1.2
-  | _, _ => "bad-args"
-
-/-- `gchain lens=… keys=…` : members are lists of tree identifiers `1000·member + local index`; answers `len` and per key
-`member:local` or `E`, computed by the generated `ChainTrees.__init__ / __len__ / __getitem__` -/
-def handleChain (args : List String) : String :=
-  match Proto.argInts args "lens", Proto.argInts args "keys" with
-  | some lens, some keys =>
-    let trees : List (List Int) := (List.range lens.length).map fun (m : Nat) =>
-      (List.range (lens.getD m 0).toNat).map fun (j : Nat) => (1000000 * (m : Int) + (j : Int))
-    match chain_init default trees with
-    | none => "E"
-    | some (c, _) =>
-      let n := match chain_len c with | some n => toString n | none => "E"
-      s!"{n} " ++ " ".intercalate (keys.map fun k => match chain_getitem (trees.length + 1) c k with
-        | none => "E" | some t => s!"{t / 1000000}:{t % 1000000}")
-  | _, _ => "bad-args"
-
-/-- `gsubtopo ids=.. pids=..` → `new_pid / mapping` of the GENERATED `to_sub_topology` (`E` = KeyError) -/
-def handleSubTopo (args : List String) : String :=
-  match Proto.argInts args "ids", Proto.argInts args "pids" with
-  | some ids, some pids =>
-    match to_sub_topology (ids, pids) with
-    | none => "E"
-    | some r => s!"{Proto.showInts r.1.2} / {Proto.showInts r.2}"
-  | _, _ => "bad-args"
-
-def handle (op : String) (args : List String) : String :=
-  match op with
-  | "gsubtopo" => handleSubTopo args
-  | "glazy" => handleLazy args
-  | "gchain" => handleChain args
-  | "ggetdsu" => handleGetDsu args
-  | "gsort" => handleSort args
-  | "gdsu" => handleDsu args
-  | "gtrav" => handleTrav args
-  | _ => "bad-op"
-end AlgoRun
+import SwcVerif.Model.AlgoRunDsu
+import SwcVerif.Model.AlgoRunTraverse
+import SwcVerif.Model.AlgoRunSort
+import SwcVerif.Model.AlgoRunSubtree
+import SwcVerif.Model.AlgoRunPopulation
+/-! all runners of generated definitions (imported by the root module only; the driver imports them one by one) -/
